@@ -359,7 +359,7 @@ func ruleWithLevel(r *Run, p *Prog) {
 			continue
 		}
 		var lv []int64
-		eachInstr(m, func(b *ssa.BasicBlock, i int, in ssa.Instruction) {
+		eachInstr(p.View(m, "keep-newEvent", func(g *ssa.Function) bool { return g == ne }), func(b *ssa.BasicBlock, i int, in ssa.Instruction) {
 			if c, ok := in.(*ssa.Call); ok && staticCallee(&c.Call) == ne {
 				if v, ok := constInt(c.Call.Args[1]); ok {
 					lv = append(lv, v)
@@ -375,6 +375,7 @@ func ruleWithLevel(r *Run, p *Prog) {
 		}
 	}
 	// 2. per path of WithLevel: the event level equals the switched constant (or the parameter)
+	wl = p.View(wl, "keep-newEvent", func(g *ssa.Function) bool { return g == ne })
 	paths, complete := enumPaths(wl, 1, 4000)
 	if !complete {
 		r.Fail("WITHLEVEL", FnName(wl)+"/paths", p.Pos(wl.Pos()), "cannot enumerate paths")
